@@ -90,6 +90,8 @@ def run(sid, tier='quick', props=None):
         assert sh(['git', 'status', '--porcelain'], cwd='/repo')[1].strip() == ''
         # the evidence files and replays written against the patched tree are not evidence about /repo
         sh(['git', 'checkout', '--', 'evidence'], cwd=ROOT)
+        # the generated facts must describe the restored tree again (developer builds use them)
+        sh([PY, os.path.join(ROOT, 'tools/gen_facts.py')], cwd=ROOT, env=dict(os.environ, PYTHONPATH='/repo', PYTHONHASHSEED='0'))
         for prop in props:
             shutil.rmtree(os.path.join(ROOT, 'replays', prop), ignore_errors=True)
     caught = any(r['exit'] == 1 and r['violations'] for r in results.values())
